@@ -20,6 +20,7 @@ import (
 	"io"
 	"os"
 	"path/filepath"
+	"runtime"
 	"sort"
 	"strconv"
 	"strings"
@@ -27,6 +28,7 @@ import (
 	"sync/atomic"
 	"time"
 
+	"github.com/itchio/headway/state"
 	"github.com/itchio/lake/pools/fspool"
 	"github.com/itchio/wharf/archiver"
 	"github.com/itchio/wharf/archiver/containerarchiver"
@@ -145,8 +147,8 @@ func c19GenTree(r *lib.Rng, class string, thorough bool) *lib.Build {
 			}
 		}
 	case "big+small":
-		big := 3 << 20
-		small := r.Range(40, 120)
+		big := 2 << 20
+		small := r.Range(30, 90)
 		if thorough {
 			big = r.Range(4, 12) << 20
 			small = r.Range(100, 600)
@@ -207,7 +209,7 @@ func c19GenTree(r *lib.Rng, class string, thorough bool) *lib.Build {
 		put(lib.Entry{Path: "sp ace/café/日本", Kind: "file", Data: []byte("x")})
 		put(lib.Entry{Path: "sp ace/-dash", Kind: "dir"})
 	case "wide":
-		n := r.Range(150, 260)
+		n := r.Range(40, 100)
 		if thorough {
 			n = r.Range(200, 1200)
 		}
@@ -444,24 +446,57 @@ func c19CoqCounts(c c19Counts) string {
 	return fmt.Sprintf("(%d, %d, %d)%%nat", c.Dirs, c.Files, c.Symlinks)
 }
 
-func c19Sched(r *lib.Rng, workers, n int) string {
-	if workers < 1 {
-		workers = 1
+// archive order as indices into the (path-sorted) entries of b
+func c19Perm(ents []c19Entry, b *lib.Build) string {
+	idx := map[string]int{}
+	for i, e := range b.Entries {
+		idx[e.Path] = i
 	}
-	s := make([]string, 0, n)
-	for i := 0; i < n; i++ {
-		t := r.Intn(workers)
-		if r.Chance(1, 4) && i > 0 { // bursts of the same worker
-			s = append(s, s[len(s)-1])
-			continue
+	out := make([]string, 0, len(ents))
+	for _, e := range ents {
+		if i, ok := idx[e.Path]; ok {
+			out = append(out, strconv.Itoa(i))
 		}
-		s = append(s, strconv.Itoa(t))
 	}
-	return "([" + strings.Join(s, ";") + "]%nat)"
+	return "([" + strings.Join(out, ";") + "]%nat)"
+}
+
+// an observed tree: None when it is exactly want
+func (p *c19Proj) obsTree(got, want *lib.Build) string {
+	if lib.DiffBuilds(got, want) == "" && len(got.Entries) == len(want.Entries) {
+		return "None"
+	}
+	return "(Some " + p.tree(got) + ")"
+}
+
+// the directory at an interruption relative to the archive entries: status per entry and the rest
+func (p *c19Proj) killState(ents []c19Entry, b, kill *lib.Build) (string, string) {
+	st := make([]string, len(ents))
+	covered := map[string]bool{}
+	for i, e := range ents {
+		src, k := b.Get(e.Path), kill.Get(e.Path)
+		switch {
+		case k == nil:
+			st[i] = "0"
+			covered[e.Path] = true
+		case src != nil && k.Kind == src.Kind && bytes.Equal(k.Data, src.Data) && k.Dest == src.Dest:
+			st[i] = "1"
+			covered[e.Path] = true
+		default:
+			st[i] = "2"
+		}
+	}
+	var extra []string
+	for i := range kill.Entries {
+		if !covered[kill.Entries[i].Path] {
+			extra = append(extra, p.entry(&kill.Entries[i]))
+		}
+	}
+	return "([" + strings.Join(st, ";") + "]%N)", "([" + strings.Join(extra, "; ") + "]%N)"
 }
 
 func c19FlavorCoq(f string) string {
-	return map[string]string{"zip": "FWalk", "tar": "FWalk", "czip": "FContainer"}[f]
+	return map[string]string{"zip": "FWalk", "tar": "FTar", "czip": "FContainer"}[f]
 }
 
 func c19ClassCoq(cls string) string {
@@ -532,28 +567,48 @@ func c19ExtractTar(archivePath, out string) c19Run {
 
 // ---------------------------------------------------------------- the check
 
-func runC19(c *Ctx) error {
+func runC19(c0 *Ctx) error {
+	// thousands of small files are created per run: use the memory file system when there is one
+	cc := *c0
+	c := &cc
+	if tmp := shmScratch("c19"); tmp != "" {
+		defer os.RemoveAll(tmp)
+		c.Tmp = tmp
+	}
+	t0 := time.Now()
+	phase := func(name string) {
+		if os.Getenv("VERIF_TIMING") != "" {
+			fmt.Fprintf(os.Stderr, "C19 %-14s %6.1fs\n", name, time.Since(t0).Seconds())
+		}
+		t0 = time.Now()
+	}
 	// corpus: the two inputs that failed on the unchanged tree run first (known_findings.json "fixed")
 	if err := c19RaceCases(c, true); err != nil {
 		return err
 	}
+	phase("race corpus")
 	if err := c19ResumeCorpus(c); err != nil {
 		return err
 	}
+	phase("resume corpus")
 	if err := c19ExtractCases(c); err != nil {
 		return err
 	}
+	phase("extract")
 	if err := c19ResumeCases(c); err != nil {
 		return err
 	}
-	return c19RaceCases(c, false)
+	phase("resume")
+	err := c19RaceCases(c, false)
+	phase("race")
+	return err
 }
 
 var c19Workers = []int{1, 2, 4, 16, -1}
 
 func c19ExtractCases(c *Ctx) error {
 	r := c.Rng.Fork()
-	n := c.N(36, 400)
+	n := c.N(24, 400)
 	for i := 0; i < n; i++ {
 		cr := r.Fork()
 		class := c19Classes[i%len(c19Classes)]
@@ -656,8 +711,8 @@ func c19OneExtract(c *Ctx, cr *lib.Rng, b *lib.Build, class, flavor string, work
 			nonDir++
 		}
 	}
-	coq := fmt.Sprintf("($ID%%N, %s, %s, %d%%nat, %s, (%s, %s, %s, %s, %d%%nat))", c19FlavorCoq(flavor), pj.tree(b), mw,
-		c19Sched(cr, mw, 4*len(b.Entries)+8), pj.entries(ents, b), c19ClassCoq(run.Class), pj.tree(got), c19CoqCounts(run.Counts), len(run.Done))
+	coq := fmt.Sprintf("($ID%%N, %s, %s, %d%%nat, %d%%N, (%s, %s, %s, %s, %d%%nat))", c19FlavorCoq(flavor), pj.tree(b), mw,
+		cr.U64()%(1<<31), c19Perm(ents, b), c19ClassCoq(run.Class), pj.obsTree(got, b), c19CoqCounts(run.Counts), len(run.Done))
 	group := "extract"
 	if oracle != "" && (cls != "ok" || len(ents) != len(b.Entries)) {
 		group = "" // the archive itself is broken: nothing to compare with the model
@@ -667,6 +722,161 @@ func c19OneExtract(c *Ctx, cr *lib.Rng, b *lib.Build, class, flavor string, work
 		Input:      map[string]interface{}{"tree": b.Summary(), "flavor": flavor, "workers": workers, "resumeFile": withResume},
 		Obs:        obs, Oracle: oracle, Coq: coq})
 	return nil
+}
+
+// ---------------------------------------------------------------- interruption without a process: freeze
+
+// c19Freezer stops every goroutine of one ExtractZip call at its next callback (OnEntryDone,
+// Consumer.OnProgress - called between two reads of a file's content -, Consumer.OnMessage)
+// once the killAfter-th OnEntryDone callback has been entered.  When all goroutines of the
+// call are parked the directory and the resume file are exactly what a process dying at that
+// moment leaves behind: a reachable global state, taken without a process per interruption.
+type c19Freezer struct {
+	mu        sync.Mutex
+	calls     int
+	killAfter int
+	frozen    bool
+	release   chan struct{}
+	done      []string
+}
+
+func (f *c19Freezer) entryDone(p string) {
+	f.mu.Lock()
+	f.calls++
+	if f.killAfter > 0 && f.calls == f.killAfter {
+		f.frozen = true
+	}
+	fr := f.frozen
+	if !fr {
+		f.done = append(f.done, p)
+	}
+	f.mu.Unlock()
+	if fr {
+		<-f.release
+	}
+}
+
+func (f *c19Freezer) gate() {
+	f.mu.Lock()
+	fr := f.frozen
+	f.mu.Unlock()
+	if fr {
+		<-f.release
+	}
+}
+
+func (f *c19Freezer) isFrozen() bool {
+	f.mu.Lock()
+	defer f.mu.Unlock()
+	return f.frozen
+}
+
+// c19Source is the archive; after fail is set every read fails
+type c19Source struct {
+	r    *bytes.Reader
+	fail atomic.Bool
+}
+
+func (s *c19Source) ReadAt(p []byte, off int64) (int, error) {
+	if s.fail.Load() {
+		return 0, fmt.Errorf("c19: archive withdrawn after the interruption was captured")
+	}
+	return s.r.ReadAt(p, off)
+}
+
+var c19Parked = map[string]bool{"chan receive": true, "chan send": true, "select": true, "semacquire": true,
+	"sync.Mutex.Lock": true, "sync.RWMutex.Lock": true, "sync.RWMutex.RLock": true, "sync.Cond.Wait": true, "sync.WaitGroup.Wait": true}
+
+// c19Quiescent: every goroutine with archiver.ExtractZip on its stack is parked (the dump is
+// taken with the world stopped, so the statuses are simultaneous)
+var c19StackBuf = make([]byte, 256<<10)
+
+func c19Quiescent() bool {
+	var buf []byte
+	for {
+		n := runtime.Stack(c19StackBuf, true)
+		if n < len(c19StackBuf) {
+			buf = c19StackBuf[:n]
+			break
+		}
+		c19StackBuf = make([]byte, 2*len(c19StackBuf))
+	}
+	found := false
+	for _, g := range strings.Split(string(buf), "\n\n") {
+		if !strings.Contains(g, "archiver.ExtractZip") {
+			continue
+		}
+		found = true
+		i, j := strings.Index(g, "["), strings.Index(g, "]")
+		if i < 0 || j < i {
+			return false
+		}
+		st := g[i+1 : j]
+		if k := strings.Index(st, ","); k >= 0 {
+			st = st[:k]
+		}
+		if !c19Parked[st] {
+			return false
+		}
+	}
+	return found
+}
+
+// c19FreezeRun extracts z into out; when killAfter > 0 and that many callbacks happen, the
+// extraction is frozen, the state on disk is captured (resume index, tree), and the frozen
+// call is then released and left to finish (its result is discarded).
+func c19FreezeRun(z []byte, out string, workers int, resume string, killAfter int) (run c19Run, killed bool, lastDone int, tree *lib.Build, err error) {
+	f := &c19Freezer{killAfter: killAfter, release: make(chan struct{})}
+	cons := &state.Consumer{OnProgress: func(float64) { f.gate() }, OnMessage: func(string, string) { f.gate() }}
+	type res struct {
+		cls, msg string
+		r        *archiver.ExtractResult
+	}
+	ch := make(chan res, 1)
+	src := &c19Source{r: bytes.NewReader(z)}
+	go func() {
+		var r *archiver.ExtractResult
+		cls, msg := lib.Guard(func() error {
+			var err error
+			r, err = archiver.ExtractZip(src, int64(len(z)), out, archiver.ExtractSettings{
+				Consumer: cons, Concurrency: workers, ResumeFrom: resume, OnEntryDone: f.entryDone})
+			return err
+		})
+		ch <- res{cls, msg, r}
+	}()
+	deadline := time.After(120 * time.Second)
+	tick := time.NewTicker(300 * time.Microsecond)
+	defer tick.Stop()
+	for {
+		select {
+		case x := <-ch:
+			run.Class, run.Msg = x.cls, x.msg
+			if x.r != nil {
+				run.Counts = c19Counts{x.r.Dirs, x.r.Files, x.r.Symlinks}
+			}
+			f.mu.Lock()
+			run.Done = append([]string(nil), f.done...)
+			f.mu.Unlock()
+			return run, false, -1, nil, nil
+		case <-deadline:
+			close(f.release)
+			return c19Run{Class: "hang", Msg: "extraction did not finish in 120 s"}, false, -1, nil, nil
+		case <-tick.C:
+			if !f.isFrozen() || !c19Quiescent() {
+				continue
+			}
+			lastDone = c19ReadResume(resume)
+			tree, err = lib.ReadBuild(out)
+			src.fail.Store(true) // the captured run is of no further interest: let it end quickly
+			close(f.release)
+			select {
+			case <-ch:
+			case <-time.After(120 * time.Second):
+				return c19Run{Class: "hang", Msg: "released extraction did not finish in 120 s"}, false, -1, nil, nil
+			}
+			return run, true, lastDone, tree, err
+		}
+	}
 }
 
 // ---------------------------------------------------------------- kill and restart
@@ -800,7 +1010,7 @@ func c19KillPoints(r *lib.Rng, nonDir, max int) []int {
 
 // one tree, one worker count, a list of interruption chains (each chain: kill points of
 // successive runs, the last run is left to finish)
-func c19ResumeConfig(c *Ctx, cr *lib.Rng, b *lib.Build, class, flavor string, workers int, chains [][]int, corpus string) error {
+func c19ResumeConfig(c *Ctx, cr *lib.Rng, b *lib.Build, class, flavor string, workers int, chains [][]int, mode, corpus string) error {
 	base := filepath.Join(c.Tmp, "c19r")
 	defer os.RemoveAll(base)
 	os.RemoveAll(base)
@@ -820,13 +1030,44 @@ func c19ResumeConfig(c *Ctx, cr *lib.Rng, b *lib.Build, class, flavor string, wo
 		return nil // reported by the extract group
 	}
 	ap := filepath.Join(base, "a.zip")
-	if err := os.WriteFile(ap, arc, 0o644); err != nil {
-		return err
+	if mode == "process" {
+		if err := os.WriteFile(ap, arc, 0o644); err != nil {
+			return err
+		}
 	}
 	for ci, chain := range chains {
+		stage := 0
 		out, resume := filepath.Join(base, fmt.Sprintf("out%d", ci)), filepath.Join(base, fmt.Sprintf("resume%d", ci))
 		if err := os.MkdirAll(out, 0o755); err != nil {
 			return err
+		}
+		// one extraction; kill > 0: interrupt it inside the kill-th OnEntryDone callback
+		attempt := func(kill int) (run c19Run, killed bool, lastDone int, tree *lib.Build, err error) {
+			if mode == "process" {
+				run, killed, err = c19Child(c, c19ChildParams{Archive: ap, Out: out, Resume: resume, Workers: workers, KillAfter: kill})
+				if err != nil || !killed {
+					return run, killed, -1, nil, err
+				}
+				lastDone = c19ReadResume(resume)
+				tree, err = lib.ReadBuild(out)
+				return run, true, lastDone, tree, err
+			}
+			run, killed, lastDone, tree, err = c19FreezeRun(arc, out, workers, resume, kill)
+			if err != nil || !killed {
+				return run, killed, lastDone, tree, err
+			}
+			// what the interrupted run left behind goes to a fresh directory and resume file
+			// (the released run has meanwhile completed the old ones)
+			stage++
+			os.RemoveAll(out)
+			out, resume = filepath.Join(base, fmt.Sprintf("out%d_%d", ci, stage)), filepath.Join(base, fmt.Sprintf("resume%d_%d", ci, stage))
+			if err = tree.WriteTo(out); err != nil {
+				return
+			}
+			if lastDone >= 0 {
+				err = os.WriteFile(resume, []byte(strconv.Itoa(lastDone)), 0o644)
+			}
+			return
 		}
 		oracle := ""
 		var kills []map[string]interface{}
@@ -834,28 +1075,20 @@ func c19ResumeConfig(c *Ctx, cr *lib.Rng, b *lib.Build, class, flavor string, wo
 		killTree := &lib.Build{}
 		var final c19Run
 		finished := false
-		for _, k := range chain {
-			run, killed, err := c19Child(c, c19ChildParams{Archive: ap, Out: out, Resume: resume, Workers: workers, KillAfter: k})
+		for _, k := range append(append([]int(nil), chain...), 0) {
+			run, killed, ld, tree, err := attempt(k)
 			if err != nil {
 				return err
 			}
-			if !killed { // fewer callbacks than k: this run went through
+			if !killed { // fewer callbacks than k (or k = 0): this run went through
 				final, finished = run, true
 				break
 			}
-			lastDone = c19ReadResume(resume)
-			killTree, err = lib.ReadBuild(out)
-			if err != nil {
-				return err
-			}
+			lastDone, killTree = ld, tree
 			kills = append(kills, map[string]interface{}{"after": k, "resumeFile": lastDone, "entriesOnDisk": len(killTree.Entries)})
 		}
 		if !finished {
-			var err error
-			final, _, err = c19Child(c, c19ChildParams{Archive: ap, Out: out, Resume: resume, Workers: workers})
-			if err != nil {
-				return err
-			}
+			return fmt.Errorf("c19: the last run of chain %v was interrupted", chain)
 		}
 		got := &lib.Build{}
 		if final.Class != "ok" {
@@ -879,14 +1112,15 @@ func c19ResumeConfig(c *Ctx, cr *lib.Rng, b *lib.Build, class, flavor string, wo
 		if lastDone >= 0 {
 			ld = fmt.Sprintf("(Some %d%%nat)", lastDone)
 		}
-		coq := fmt.Sprintf("($ID%%N, %s, %d%%nat, %s, %s, %s, (%s, %s, %s, %d%%nat))", pj.entries(ents, b), mw, c19Sched(cr, mw, 4*len(ents)+8),
-			ld, pj.tree(killTree), c19ClassCoq(final.Class), pj.tree(got), c19CoqCounts(final.Counts), len(final.Done))
-		cls := fmt.Sprintf("resume/%s/%s/w%d/kills%d", flavor, class, workers, len(kills))
+		kst, kextra := pj.killState(ents, b, killTree)
+		coq := fmt.Sprintf("($ID%%N, %s, %d%%nat, %d%%N, %s, %s, %s, (%s, %s, %s, %d%%nat))", pj.entries(ents, b), mw, cr.U64()%(1<<31),
+			ld, kst, kextra, c19ClassCoq(final.Class), pj.obsTree(got, b), c19CoqCounts(final.Counts), len(final.Done))
+		cls := fmt.Sprintf("resume-%s/%s/%s/w%d/kills%d", mode, flavor, class, workers, len(kills))
 		if corpus != "" {
 			cls = "corpus/" + corpus
 		}
 		c.Out.Emit(&lib.Case{Group: "resume", Class: cls, Nontrivial: len(kills) >= 1 && len(ents) >= 3,
-			Input:  map[string]interface{}{"tree": b.Summary(), "flavor": flavor, "workers": workers, "killAfterCallbacks": chain},
+			Input:  map[string]interface{}{"tree": b.Summary(), "flavor": flavor, "workers": workers, "killAfterCallbacks": chain, "interruptBy": mode},
 			Obs:    map[string]interface{}{"kills": kills, "final": final.Class, "counts": final.Counts, "entryDone": len(final.Done)},
 			Oracle: oracle, Coq: coq})
 	}
@@ -902,13 +1136,16 @@ func c19ResumeCorpus(c *Ctx) error {
 	for i := 0; i < 60; i++ {
 		b.Put(lib.Entry{Path: fmt.Sprintf("s/f%03d", i), Kind: "file", Data: r.Bytes(r.Range(0, 200))})
 	}
-	return c19ResumeConfig(c, r, b, "big+small", "zip", 4, [][]int{{3}, {8}, {20}, {2, 5}}, "resume-watermark")
+	if err := c19ResumeConfig(c, r, b, "big+small", "zip", 4, [][]int{{3}, {20}, {2, 5}}, "process", "resume-watermark"); err != nil {
+		return err
+	}
+	return c19ResumeConfig(c, r, b, "big+small", "zip", 4, [][]int{{1}, {3}, {8}, {20}, {2, 5}}, "freeze", "resume-watermark-freeze")
 }
 
 func c19ResumeCases(c *Ctx) error {
 	r := c.Rng.Fork()
-	n := c.N(10, 60)
-	maxPoints := 10
+	n := c.N(8, 80)
+	maxPoints := 8
 	if c.Thorough() {
 		maxPoints = 24
 	}
@@ -937,7 +1174,14 @@ func c19ResumeCases(c *Ctx) error {
 		if len(chains) == 0 {
 			chains = [][]int{{1}}
 		}
-		if err := c19ResumeConfig(c, cr, b, class, flavor, workers, chains, ""); err != nil {
+		mode := "freeze"
+		if i%10 == 3 || (c.Thorough() && i%4 == 3) { // some configurations with real processes that die
+			mode = "process"
+			if !c.Thorough() && len(chains) > 4 {
+				chains = append(chains[:3], chains[len(chains)-1])
+			}
+		}
+		if err := c19ResumeConfig(c, cr, b, class, flavor, workers, chains, mode, ""); err != nil {
 			return err
 		}
 	}
@@ -979,7 +1223,7 @@ func c19RaceCases(c *Ctx, corpus bool) error {
 		ps = []c19RaceParams{{Seed: 15, Class: "wide", Flavor: "zip", Workers: 8, Resume: true}}
 	} else {
 		r := c.Rng.Fork()
-		n := c.N(4, 24)
+		n := c.N(2, 24)
 		for i := 0; i < n; i++ {
 			ps = append(ps, c19RaceParams{Seed: r.U64(), Class: []string{"big+small", "mixed", "wide", "links"}[i%4],
 				Flavor: []string{"zip", "czip", "zip", "tar"}[(i/4+i)%4], Workers: []int{2, 16, -1, 4}[i%4], Resume: i%3 != 2})
